@@ -562,6 +562,10 @@ class Polygon(Shape2D):
         half_point_lengths = np.concatenate(
             (np.sum(points[:-1] * points[:-1], axis=1) / 2, [0])
         )
+        # Give the in-plane constraint (a unit vector) the same length scale as the
+        # other rows; otherwise the conditioning of the system, and with it the
+        # accuracy of the solution, degrades with the size of the polygon.
+        points[-1] *= np.max(np.linalg.norm(points[:-1], axis=1))
         x, resids, _, _ = np.linalg.lstsq(points, half_point_lengths, None)
         # The residual has units of length**4: use a tolerance relative to the size.
         atol = 1e-8 * np.max(half_point_lengths) ** 2
